@@ -85,7 +85,10 @@ TypedMsg(c, vi) ==
 
 HLen(m) == Len(m.h)
 MsgLen(m) == Len(m.h) + m.n
-Contents(m, from, to) == IF m.c = <<>> THEN Zeros(to - from + 1) ELSE SubSeq(m.c, from, to)
+\* a constant tuple of zero octets (built once; SubSeq of it is an array copy, whereas
+\* Zeros(n) would be re-evaluated element by element at every use)
+ZeroPool == Force(Zeros(70000))
+Contents(m, from, to) == IF m.c = <<>> THEN SubSeq(ZeroPool, from, to) ELSE SubSeq(m.c, from, to)
 
 \* the first k octets of the stream  m \o tail
 PrefixOf(m, tail, k) ==
@@ -102,7 +105,7 @@ Expected(m, k) == IF k < HLen(m) THEN Unknown ELSE MsgLen(m)
 (* tails                                                                    *)
 
 Rnd(j) == ((Seed % 9973) * 31 + j * j * 17 + j * 101 + 7) % 256
-RandomTail == [j \in 1..(3 + Seed % 4) |-> Rnd(j)]
+RandomTail == [j \in 1..(3 + (Seed % 4)) |-> Rnd(j)]
 Tails == << <<>>, <<0>>, <<0, 0>>, <<48, 128>>, RandomTail >>
 
 ------------------------------------------------------------------------------
@@ -114,7 +117,7 @@ StreamLen(m, tail) == MsgLen(m) + Len(tail)
 NextK(m, k) ==
   LET hl == HLen(m)
   IN IF m.n > Dense /\ k >= hl + 2 /\ k < hl + m.n - 2
-     THEN (IF k < hl + m.n \div 2 THEN hl + m.n \div 2 ELSE hl + m.n - 2)
+     THEN (IF k < hl + (m.n \div 2) THEN hl + (m.n \div 2) ELSE hl + m.n - 2)
      ELSE k + 1
 
 Init ==
@@ -122,13 +125,21 @@ Init ==
         /\ \E q \in AbsDescs : gM = AbsMsg(q[1], TagNums[q[2]], LenForms[q[3]], ContentLens[q[4]])
      \/ /\ Mode = "typed"
         /\ \E c \in 1..Len(Cases) : \E vi \in 1..Min2(MaxVals, Len(Cases[c].vals)) : gM = TypedMsg(c, vi)
-  /\ \E j \in 1..Len(Tails) : gTail = Tails[j]
+  /\ gTail = <<>>
   /\ gK = 0
 
+\* the message octet by octet, then (the stream goes on) one of the tails
 Next ==
-  /\ gK < StreamLen(gM, gTail)
-  /\ gK' = NextK(gM, gK)
-  /\ UNCHANGED <<gM, gTail>>
+  \/ /\ gK < MsgLen(gM)
+     /\ gK' = NextK(gM, gK)
+     /\ UNCHANGED <<gM, gTail>>
+  \/ /\ gK = MsgLen(gM) /\ gTail = <<>>
+     /\ \E j \in 2..Len(Tails) : gTail' = Tails[j]
+     /\ gK' = gK + 1
+     /\ UNCHANGED gM
+  \/ /\ gK > MsgLen(gM) /\ gK < StreamLen(gM, gTail)
+     /\ gK' = gK + 1
+     /\ UNCHANGED <<gM, gTail>>
 
 Spec == Init /\ [][Next]_pvars
 
@@ -140,29 +151,40 @@ WalkFrom(m, tail, k) == IF k >= StreamLen(m, tail) THEN <<k>> ELSE <<k>> \o Walk
 (* M: properties of the probe, checked by TLC on every visited state        *)
 
 \* unknown until the header is complete, the message length from then on
-ProbeShape == ProbeAt(gM, gTail, gK) = Expected(gM, gK)
+ProbeShapeFor(a) == a = Expected(gM, gK)
 
 \* contents and tail octets are irrelevant once the header is complete
-HeaderOnly == gK >= HLen(gM) => ProbeAt(gM, gTail, gK) = Probe(gM.h)
+HeaderOnlyFor(a) == gK >= HLen(gM) => a = Probe(gM.h)
 
 \* the header is exactly the identifier and length octets: dropping its last octet loses the answer
 HeaderMinimal == Probe(SubSeq(gM.h, 1, HLen(gM) - 1)) = Unknown
 
+ProbeShape == ProbeShapeFor(ProbeAt(gM, gTail, gK))
+HeaderOnly == HeaderOnlyFor(ProbeAt(gM, gTail, gK))
+
+\* the three at once (the concrete prefix is built once per state)
+ProbeOk == LET a == ProbeAt(gM, gTail, gK) IN ProbeShapeFor(a) /\ HeaderOnlyFor(a) /\ HeaderMinimal
+
 \* monotone, never a wrong number: once known the answer does not change
 Monotone ==
-  [][ProbeAt(gM, gTail, gK) # Unknown => ProbeAt(gM', gTail', gK') = ProbeAt(gM, gTail, gK)]_pvars
+  [][LET a == ProbeAt(gM, gTail, gK) IN a # Unknown => ProbeAt(gM', gTail', gK') = a]_pvars
 
 ------------------------------------------------------------------------------
-(* emission of behaviours (binding A): one line per (message, tail)         *)
+(* emission of behaviours (binding A): one line per message                 *)
 
 Behaviour ==
-  LET walk == WalkFrom(gM, gTail, 0)
-  IN [kind |-> Mode, d |-> gM.d, h |-> gM.h, n |-> gM.n, total |-> MsgLen(gM), tail |-> gTail,
+  LET walk == WalkFrom(gM, <<>>, 0)
+      total == MsgLen(gM)
+  IN [kind |-> Mode, d |-> gM.d, h |-> gM.h, n |-> gM.n, total |-> total,
       b |-> IF Mode = "typed" THEN gM.h \o gM.c ELSE <<>>,
-      pts |-> [j \in 1..Len(walk) |-> <<walk[j], ProbeAt(gM, gTail, walk[j])>>]]
+      pts |-> [j \in 1..Len(walk) |-> <<walk[j], ProbeAt(gM, <<>>, walk[j])>>],
+      tails |-> [j \in 1..Len(Tails) |->
+                   [t |-> Tails[j],
+                    pts |-> [x \in 1..Len(Tails[j]) |-> <<total + x, ProbeAt(gM, Tails[j], total + x)>>]]]]
 
+\* (emitted when the walk reaches the end of the message, so that the workers share the work)
 Emit ==
-  gK = 0 =>
+  (gK = MsgLen(gM) /\ gTail = <<>>) =>
     Serialize(ToJson(Behaviour) \o "\n", IOEnv.OUT_FILE,
               [format |-> "TXT", charset |-> "UTF-8", openOptions |-> <<"WRITE", "CREATE", "APPEND">>]).exitValue = 0
 
